@@ -522,9 +522,7 @@ class io_uring_context::read_sender {
         return;
       }
       self.stopCallback_.destruct();
-      if (get_stop_token(self.receiver_).stop_requested()) {
-        unifex::set_done(std::move(self.receiver_));
-      } else if (self.result_ >= 0) {
+      if (self.result_ >= 0) {
         if constexpr (noexcept(unifex::set_value(
                           std::move(self.receiver_), ssize_t(self.result_)))) {
           unifex::set_value(std::move(self.receiver_), ssize_t(self.result_));
@@ -537,7 +535,9 @@ class io_uring_context::read_sender {
                 std::move(self.receiver_), std::current_exception());
           }
         }
-      } else if (self.result_ == -ECANCELED) {
+      } else if (
+          self.result_ == -ECANCELED ||
+          get_stop_token(self.receiver_).stop_requested()) {
         unifex::set_done(std::move(self.receiver_));
       } else {
         unifex::set_error(
@@ -726,9 +726,7 @@ class io_uring_context::write_sender {
         return;
       }
       self.stopCallback_.destruct();
-      if (get_stop_token(self.receiver_).stop_requested()) {
-        unifex::set_done(std::move(self.receiver_));
-      } else if (self.result_ >= 0) {
+      if (self.result_ >= 0) {
         if constexpr (noexcept(unifex::set_value(
                           std::move(self.receiver_), ssize_t(self.result_)))) {
           unifex::set_value(std::move(self.receiver_), ssize_t(self.result_));
@@ -741,7 +739,9 @@ class io_uring_context::write_sender {
                 std::move(self.receiver_), std::current_exception());
           }
         }
-      } else if (self.result_ == -ECANCELED) {
+      } else if (
+          self.result_ == -ECANCELED ||
+          get_stop_token(self.receiver_).stop_requested()) {
         unifex::set_done(std::move(self.receiver_));
       } else {
         unifex::set_error(
